@@ -127,19 +127,23 @@ Proof.
   destruct o; cbn [aop_plain] in Hc; try discriminate.
   - (* push *)
     destruct (new_entry_runs e ts tid ri _ a b c d Hc HT) as (ts1 & te & txt & R1 & T1 & E1 & Ne).
+    assert (ER : exists cs, cfield_tree f = Node ROOT cs) by (eexists; reflexivity). destruct ER as (cs & ER). rewrite ER in T1.
+    destruct (push_runs ts1 tid ri ROOT cs a b d te [] _ (centry_tree e) T1 E1 eq_refl) as (ts2 & a2 & b2 & d2 & R2 & T2).
     eexists. split; [|split].
-    + cbn [compile]. eapply run_ops_cons; [exact R1|]. eapply run_ops_cons; [|reflexivity].
-      eapply push_runs; [exact T1|exact E1].
-    + do 7 eexists. split; [reflexivity|]. rewrite count_entries_cfield, relations_insert_green_canon.
-      cbn [astep]. unfold l_insert. rewrite firstn_all, skipn_all. apply nth_error_app_at.
+    + cbn [compile]. eapply run_ops_cons; [exact R1|]. eapply run_ops_cons; [exact R2|reflexivity].
+    + do 7 eexists. split; [reflexivity|]. rewrite T2. f_equal. f_equal.
+      replace (count_if is_entry cs) with (length f) by (rewrite <- count_entries_cfield, ER; reflexivity).
+      rewrite <- ER, relations_insert_green_canon.
+      cbn [astep]. unfold l_insert. now rewrite firstn_all, skipn_all.
     + cbn [astep]. unfold plain_field. rewrite forallb_app. cbn [forallb].
       unfold plain_field in Hp. now rewrite Hp, new_only_plain.
   - (* insert *)
     destruct (new_entry_runs e ts tid ri _ a b c d Hc HT) as (ts1 & te & txt & R1 & T1 & E1 & Ne).
+    assert (ER : exists cs, cfield_tree f = Node ROOT cs) by (eexists; reflexivity). destruct ER as (cs & ER). rewrite ER in T1.
+    destruct (insert_runs i ts1 tid ri ROOT cs a b d te [] _ (centry_tree e) T1 E1 eq_refl) as (ts2 & a2 & b2 & d2 & R2 & T2).
     eexists. split; [|split].
-    + cbn [compile]. eapply run_ops_cons; [exact R1|]. eapply run_ops_cons; [|reflexivity].
-      eapply insert_runs; [exact T1|exact E1].
-    + do 7 eexists. split; [reflexivity|]. rewrite relations_insert_green_canon. apply nth_error_app_at.
+    + cbn [compile]. eapply run_ops_cons; [exact R1|]. eapply run_ops_cons; [exact R2|reflexivity].
+    + do 7 eexists. split; [reflexivity|]. rewrite T2, <- ER. now rewrite relations_insert_green_canon.
     + cbn [astep]. apply forallb_l_insert; [exact Hp|now apply new_only_plain].
   - (* replace *)
     cbn [aop_in_range] in Hr. apply Nat.ltb_lt in Hr.
